@@ -46,7 +46,8 @@ def run_and_judge(case):
                        "outcome_exception": (d.outcome["exception"] or {}).get("type"),
                        "worker_errors": {w: e["type"] for w, e in d.outcome["worker_errors"].items()},
                        "statuses": dict(collections.Counter(e["status"] for e in d.execs if e["status"])),
-                       "interrupted_first_run": len(record["phases"]) > 1}
+                       "interrupted_first_run": len(record["phases"]) > 1 and not case.get("replay_run"),
+                       "replayed_first_run": len(record["phases"]) > 1 and bool(case.get("replay_run"))}
     if case.get("return_events"):
         result["events"] = record["events"]
         result["nodes"] = d.nodes
